@@ -723,6 +723,7 @@ func scenarioOrder(seed int64, idle, frame time.Duration) *verdict {
 	const total = 5000
 	body := bytes.Repeat([]byte{9}, 4000)
 	sent := make(chan struct{})
+	var progress int64
 	go func() {
 		defer close(sent)
 		for i := 0; i < total; i++ {
@@ -730,18 +731,32 @@ func scenarioOrder(seed int64, idle, frame time.Duration) *verdict {
 			if w.w1.send(&hagallpb.CustomMessage{Type: hagallpb.MsgType_MSG_TYPE_CUSTOM_MESSAGE, Timestamp: now(), Body: b}) != nil {
 				return
 			}
+			atomic.AddInt64(&progress, 1)
 		}
 	}()
-	time.Sleep(600 * time.Millisecond) // the backlog builds up
+	// the backlog builds up: until the sender itself makes no progress any more (the slow member's queue, the socket
+	// buffers and the sender's own connection are all full)
+	for last, still := int64(-1), 0; still < 8; {
+		time.Sleep(50 * time.Millisecond)
+		if p := atomic.LoadInt64(&progress); p == last {
+			still++
+		} else {
+			last, still = p, 0
+		}
+		if atomic.LoadInt64(&progress) >= total {
+			break
+		}
+	}
 	// behind the backlog, another member creates an entity and moves it: the slow member must be told, once it catches up
 	moved := make(chan uint32, 1)
 	go func() {
 		// the pose update first: it is relayed while the slow member's queue is full
 		w.w2.send(&hagallpb.EntityUpdatePose{Type: hagallpb.MsgType_MSG_TYPE_ENTITY_UPDATE_POSE, Timestamp: now(), EntityId: movable, Pose: &hagallpb.Pose{Px: 4242}})
+		time.Sleep(200 * time.Millisecond) // a few frames: the update is on its way to the others before anything else of this member
 		eid, _ := w.w2.addEntity()
 		moved <- eid
 	}()
-	time.Sleep(300 * time.Millisecond)
+	time.Sleep(500 * time.Millisecond)
 	go slow.readLoop()
 	select {
 	case <-sent:
